@@ -121,7 +121,9 @@ def gen(rng):
     if fea and "A.alt" in names and "A" in names and rng.random() < 0.5:
         fea += "feature salt { sub A by A.alt; } salt;\n"
     return {"glyphs": glyphs, "groups": groups, "kerning": kerning, "features": fea, "lib": lib,
-            "quantization": rng.choice([1, 1, 1, 5, 10])}
+            "quantization": rng.choice([1, 1, 1, 5, 10]),
+            # the writer's other option: kerning lookups that do NOT skip marks (mark pairs are then kerned in the same lookups)
+            "ignoreMarks": rng.random() >= 0.2}
 
 
 def g_side(s):
@@ -143,7 +145,7 @@ def run_font(desc, writer_cls, lib):
             return ctx
     Spy.__name__ = writer_cls.__name__
     tt = ufo2ft.compileTTF(build_font(desc, lib), useProductionNames=False,
-                           featureWriters=[Spy(quantization=desc["quantization"])])
+                           featureWriters=[Spy(quantization=desc["quantization"], ignoreMarks=desc.get("ignoreMarks", True))])
     buf = io.BytesIO(); tt.save(buf); buf.seek(0)
     return TTFont(buf), spy
 
@@ -307,6 +309,8 @@ def explore(ctx):
             results[wname] = (obs, spy)
             ctx.count()
             ctx.klass(wname)
+            if not desc.get("ignoreMarks", True):
+                ctx.klass("ignoreMarks=False")
             if wname == "kernFeatureWriter":
                 pairs = spy["pairs"] or []
                 g_pairs = G.lst(["(mkR %s %s %s)" % (g_side(s1), g_side(s2), geom.g_q(Fr(v))) for s1, s2, v in pairs], "krule")
